@@ -12,17 +12,29 @@ SIGS_ALL = {2: "INT", 15: "TERM", 1: "HUP", 13: "PIPE", 24: "XCPU", 25: "XFSZ"} 
 RETRY = (4, 11)
 
 
+LAUNCH = [None]
+
+
 def build_preload():
+    """interposer (shared object) and launcher (resets the inherited process environment before exec'ing xz)"""
     out = os.path.join(vlib.CACHE, "harness-rel")
     os.makedirs(out, exist_ok=True)
     so = os.path.join(out, "c17_preload.so")
     src = os.path.join(vlib.ROOT, "harness", "c17_preload.c")
+    la = os.path.join(out, "c17_launch")
+    lsrc = os.path.join(vlib.ROOT, "harness", "c17_launch.c")
     with vlib.Lock("h-rel-c17"):
         if not os.path.exists(so) or os.path.getmtime(so) < os.path.getmtime(src):
             rc, log = vlib.sh(["cc", "-shared", "-fPIC", "-O2", "-w", "-o", so + ".tmp", src, "-ldl"])
             if rc != 0:
                 return False, log, so
             os.replace(so + ".tmp", so)
+        if not os.path.exists(la) or os.path.getmtime(la) < os.path.getmtime(lsrc):
+            rc, log = vlib.sh(["cc", "-O2", "-w", "-o", la + ".tmp", lsrc])
+            if rc != 0:
+                return False, log, so
+            os.replace(la + ".tmp", la)
+    LAUNCH[0] = la
     return True, "", so
 
 
@@ -160,9 +172,10 @@ def run_case(xz, so, mode, plan, keep_dir=False, timeout=60):
     if mode.stdout or mode.stdin:
         fout = open(os.path.join(d, "_out"), "wb")
         sout = fout
-    # an ignored SIGPIPE is inherited through exec: let a shell ignore it and exec xz (no preexec_fn: we run in threads)
-    launch = (["/bin/sh", "-c", "trap '' %s; exec \"$@\"" % SIGS_ALL[mode.ignored_sig], "sh"] + argv
-              if mode.ignored_sig else argv)
+    # xz must not inherit whatever dispositions / mask / umask ./check was started with: the launcher resets them and
+    # then installs exactly the inherited-SIG_IGN scenario of this mode (no preexec_fn: we run in threads; the launcher
+    # itself is not under LD_PRELOAD's influence in any way that matters: it makes no recorded call)
+    launch = [LAUNCH[0]] + (["-i", str(mode.ignored_sig)] if mode.ignored_sig else []) + ["--"] + argv
     try:
         p = subprocess.run(launch, cwd=d, env=env, stdin=sin, stdout=sout, stderr=subprocess.PIPE, timeout=timeout)
         rc, err = p.returncode, p.stderr.decode("utf-8", "replace")
@@ -205,7 +218,7 @@ def parse_rec(ln):
     kind, name = t[2].split(":", 1)
     dev, ino = t[8].split(":")
     return {"k": int(t[0]), "op": t[1], "kind": kind, "name": name, "a1": int(t[3]), "a2": int(t[4]), "ret": int(t[6]),
-            "errno": int(t[7]), "ino": int(ino), "inj": t[9]}
+            "errno": int(t[7]), "ino": int(ino), "inj": t[9], "blk": int(t[10][1:], 16) if len(t) > 10 else None}
 
 
 def open_flags(fl, mode):
@@ -270,7 +283,7 @@ def canon(res, mode):
             if op == "unlink" and role == "DST" and ok:
                 pre_gone.add(cur)
         per[cur].append({"k": r["k"], "s": s, "op": op, "role": role, "req": r["a1"], "ret": r["ret"], "errno": r["errno"],
-                         "ino": r["ino"], "inj": r["inj"]})
+                         "ino": r["ino"], "inj": r["inj"], "blk": r.get("blk")})
     # resolve '?' inode classes: the target created by this run (when its fstat was faulted) or a foreign file
     for i, evs in enumerate(per):
         for e in evs:
